@@ -25,7 +25,7 @@ pub static PROP: PropDef = PropDef {
            and raw poll_send, with stream / connection receive windows and send window from tiny to large so that writes are taken in pieces; a second send_data before poll_ready completed must be refused and contribute no byte; a raw Quinn peer reads to the end: \
            bytes == concatenation of what was handed over, nothing twice, nothing missing, in order. (recv) a raw Quinn peer writes 0..6 pieces (0..100 KB) on the nth bidi/uni stream it opened, as client or server, and ends with FIN or RESET(code); the adapter's poll_data, optionally polled once with a no-op waker before every awaited read (a read in flight), must hand out exactly those bytes in order and then the end / StreamTerminated{code}, recv_id = RFC 9000 2.1 id at every step. \
            (ids) send_id / recv_id queried in every state {fresh, read pending, data read, FIN seen, reset seen, after stop_sending, write pending, finished} on the first or a later stream, client- or server-initiated: always the QUIC stream id (also on the earlier streams and after split), never a panic. \
-           (errors; after the first report the call is repeated three times: no panic, no different code, same id) peer close(code) => ApplicationClose{same code}; idle timeout => Timeout; peer reset(code) => StreamTerminated{same code} on read; peer stop(code) => StreamTerminated{same code} on write. \
+           (errors; after the first report the call is repeated three times: no panic, no different code, same id) peer close(code) => ApplicationClose{same code}, also for streams opened afterwards through the connection, its opener() handle and a clone of it; idle timeout => Timeout, likewise; idle timeout => Timeout; peer reset(code) => StreamTerminated{same code} on read; peer stop(code) => StreamTerminated{same code} on write. \
            non-trivial = a write whose payload exceeds the stream receive window (it cannot have been taken whole), or an id query in a non-fresh state, or an injected error; distinct by case parameters",
     assumptions: &[
         "the schedule is whatever Quinn, tokio and the kernel produce: it is sampled, not controlled; partial writes are provoked through Quinn's flow-control windows",
@@ -751,9 +751,14 @@ pub enum ErrRow {
     Timeout,
     ResetOnRead,
     StopOnWrite,
+    /// streams opened after the peer's close arrived: through the connection, through its opener() handle and a clone of it,
+    /// bidirectional and unidirectional
+    CloseOnOpen,
+    /// the same after the idle timeout
+    TimeoutOnOpen,
 }
 
-const ROWS: [ErrRow; 6] = [ErrRow::CloseOnAccept, ErrRow::CloseOnRead, ErrRow::CloseOnWrite, ErrRow::Timeout, ErrRow::ResetOnRead, ErrRow::StopOnWrite];
+const ROWS: [ErrRow; 8] = [ErrRow::CloseOnAccept, ErrRow::CloseOnRead, ErrRow::CloseOnWrite, ErrRow::Timeout, ErrRow::ResetOnRead, ErrRow::StopOnWrite, ErrRow::CloseOnOpen, ErrRow::TimeoutOnOpen];
 
 /// The condition has been reported once; the trait allows asking again (select loops, h3's own later calls do): that must
 /// not panic, must not report a different code, and the identifier stays what it was. What exactly a later call returns
@@ -783,7 +788,7 @@ fn asked_again(bi: &mut h3_quinn::BidiStream<Bytes>, code: u64, conn_level: bool
 
 async fn err_case(fx: &Fixture, row: ErrRow, code: u64) -> Result<Result<(), String>, Failure> {
     let w = Windows { stream_rx: 1 << 16, conn_rx: 1 << 20, send: 1 << 20 };
-    let idle = if row == ErrRow::Timeout { Some(150) } else { None };
+    let idle = if matches!(row, ErrRow::Timeout | ErrRow::TimeoutOnOpen) { Some(150) } else { None };
     let (cc, sc) = connect(fx, &w, idle).await.map_err(hfault)?;
     let mut conn = h3_quinn::Connection::new(cc.clone());
     let qcode = quinn::VarInt::from_u64(code).map_err(|_| hfault("code"))?;
@@ -809,6 +814,44 @@ async fn err_case(fx: &Fixture, row: ErrRow, code: u64) -> Result<Result<(), Str
                 Err(e) => Err(format!("peer closed with {code:#x}; poll_accept_bidi gave {}", conn_err(&e))),
                 Ok(_) => Err("a stream was accepted".into()),
             }
+        }
+        ErrRow::CloseOnOpen | ErrRow::TimeoutOnOpen => {
+            use quic::Connection as _;
+            let timeout = row == ErrRow::TimeoutOnOpen;
+            if !timeout {
+                sc.close(qcode, b"bye");
+            }
+            // wait until quinn has registered the loss of the connection
+            let _ = cc.closed().await;
+            let mut op = <h3_quinn::Connection as quic::Connection<Bytes>>::opener(&conn);
+            let mut op2 = op.clone();
+            let ok = |e: &StreamErrorIncoming| match e {
+                StreamErrorIncoming::ConnectionErrorIncoming { connection_error: ConnectionErrorIncoming::ApplicationClose { error_code } } => !timeout && *error_code == code,
+                StreamErrorIncoming::ConnectionErrorIncoming { connection_error: ConnectionErrorIncoming::Timeout } => timeout,
+                _ => false,
+            };
+            let what = if timeout { "the idle timeout".to_string() } else { format!("the peer's close({code:#x})") };
+            let mut out = Ok(());
+            let r1 = std::future::poll_fn(|cx| <h3_quinn::Connection as OpenStreams<Bytes>>::poll_open_bidi(&mut conn, cx)).await.map(|_| ());
+            let r2 = std::future::poll_fn(|cx| <h3_quinn::Connection as OpenStreams<Bytes>>::poll_open_send(&mut conn, cx)).await.map(|_| ());
+            let r3 = std::future::poll_fn(|cx| OpenStreams::<Bytes>::poll_open_bidi(&mut op, cx)).await.map(|_| ());
+            let r4 = std::future::poll_fn(|cx| OpenStreams::<Bytes>::poll_open_send(&mut op, cx)).await.map(|_| ());
+            let r5 = std::future::poll_fn(|cx| OpenStreams::<Bytes>::poll_open_send(&mut op2, cx)).await.map(|_| ());
+            let r6 = std::future::poll_fn(|cx| OpenStreams::<Bytes>::poll_open_bidi(&mut op2, cx)).await.map(|_| ());
+            for (name, r) in [("Connection::poll_open_bidi", r1), ("Connection::poll_open_send", r2), ("opener().poll_open_bidi", r3), ("opener().poll_open_send", r4), ("opener().clone().poll_open_send", r5), ("opener().clone().poll_open_bidi", r6)] {
+                match r {
+                    Err(e) if ok(&e) => {}
+                    Err(e) => {
+                        out = Err(format!("after {what}: {name} gave {e:?}"));
+                        break;
+                    }
+                    Ok(()) => {
+                        out = Err(format!("after {what}: {name} opened a stream"));
+                        break;
+                    }
+                }
+            }
+            out
         }
         ErrRow::Timeout => {
             // nothing is sent any more: both ends run into the idle timeout
@@ -932,7 +975,7 @@ fn exhaustive(ctx: &mut Ctx, shard: usize, nshards: usize) -> Verdict {
     }
     for row in ROWS {
         for code in [0u64, 0x100, 0x10c, (1 << 62) - 1] {
-            if row == ErrRow::Timeout && code != 0 {
+            if matches!(row, ErrRow::Timeout | ErrRow::TimeoutOnOpen) && code != 0 {
                 continue;
             }
             idx += 1;
@@ -1002,8 +1045,8 @@ fn run_tape(tape: &[u16], ctx: &mut Ctx) -> Verdict {
         0 => run_id(ID_STATES[t.pick(8)], t.bool(), t.pick(3) as u64, t.bool(), ctx),
         2 | 3 => run_recv(&gen_recv(&mut t), ctx),
         1 => {
-            let row = ROWS[t.pick(6)];
-            let code = if row == ErrRow::Timeout { 0 } else { t.u64() >> 2 >> t.pick(62) };
+            let row = ROWS[t.pick(8)];
+            let code = if matches!(row, ErrRow::Timeout | ErrRow::TimeoutOnOpen) { 0 } else { t.u64() >> 2 >> t.pick(62) };
             run_err(row, code, ctx)
         }
         _ => run_write(&gen_write(&mut t), ctx),
